@@ -114,7 +114,12 @@ def run(ctx, n_override=None):
                 x = X.gen_balanced(rng)
             x.date = '2020/%02d/%02d' % (rng.randrange(1, 13), rng.randrange(1, 29))
             xs.append(x)
-        rows, rejected, errs, st, text = X.compare_journal(ctx, res, 'C02', j, xs, bucket)
+        # directive combinations: the bucket declared as `A`, `bucket` or `account .. default`, and the whole journal inside an
+        # `apply account` block (the bucket's account then lives below the root like every other account)
+        root = rng.choice(['Top', 'Personal:Books']) if rng.random() < 0.25 else None
+        bstyle = rng.randrange(3)
+        res.count('layout:%s%s' % ('apply-account' if root else 'plain', (':bucket-style-%d' % bstyle) if bucket else ''))
+        rows, rejected, errs, st, text = X.compare_journal(ctx, res, 'C02', j, xs, bucket, root=root, bucket_style=bstyle)
         for i, x in enumerate(xs):
             nulls = x.nulls()
             impl = X.impl_summary(i, rows, rejected, errs)
